@@ -399,6 +399,8 @@ pub enum Action {
   /// the caller drops its handle of the pipeline value (the Observable) while subscriptions
   /// are still alive; nothing can be subscribed afterwards
   DropObservable,
+  /// the caller reads Subscription::is_subscribed() (from whatever thread runs this action)
+  IsSubscribed(usize),
   /// advance virtual time by ms (lets timers fire)
   Advance(u64),
   /// connectable cases: publish().connect() / unsubscribe the connection
@@ -445,6 +447,7 @@ impl Case {
         Action::DropUsingUnwinding(k) => format!("dropusing{}(unwinding)", k),
         Action::Advance(ms) => format!("+{}ms", ms),
         Action::DropObservable => "drop-observable".to_string(),
+        Action::IsSubscribed(k) => format!("is_subscribed{}?", k),
         Action::Connect => "connect".to_string(),
         Action::Disconnect => "disconnect".to_string(),
       })
